@@ -383,4 +383,18 @@ def run(ctx, rep) -> None:
             rep.violation(f'{t["id"]}: event loop stalled', payload=t)
         elif v != 'ok':
             rep.classified(v if v in ('F15', 'F25', 'F32') else '', f'{t["id"]}: {v}', payload=t)
+    # "while paused nothing is listed or watched, and watching restarts on resume": one operator, a peering per served namespace, foreign
+    # records that block and free single peerings, namespaces that disappear (with a blocked peering) and come back - PauseSet.tla
+    # requires at every rest point that the streams are open iff no peering that is still served reports a conflict
+    from vf import peering as P
+    dscs = P.gen_dims(ctx.seed + 11, 30 if ctx.quick else 600)
+    with ProcessPoolExecutor(16) as ex:
+        dtraces = list(ex.map(P.run_dims, dscs, chunksize=2))
+    dv = P.judge_dims(dtraces, rep)
+    rep.evaluations += len(dtraces); rep.traces += len(dtraces)
+    for t in dtraces:
+        if t['stall']:
+            rep.violation(f'{t["id"]}: event loop stalled', payload=t)
+        elif dv[t['id']] != 'ok':
+            rep.violation(f'{t["id"]}: {dv[t["id"]]}', payload=t)
     rep.sample({'scenario': traces[0]['scenario'], 'events_head': traces[0]['events'][:12]}); rep.sample(traces[-1]['events'][-3:])
